@@ -161,7 +161,8 @@ Lemma scan_line_legal s buf sp ext n r :
   rest s = sp ++ ext ++ CRLF ++ r ->
   (exists s1, scan_line buf s false false [] = (None, s1) /\ buf < length sp + length ext + 2)
   \/ (exists s1, scan_line buf s false false [] = (Some sp, s1) /\ rest s1 = r /\
-                 pos s1 = pos s + (length sp + length ext + 2)).
+                 pos s1 = pos s + (length sp + length ext + 2) /\
+                 length sp + length ext + 2 <= buf).
 Proof.
   intros Hv He Hr.
   pose proof (scan_line_pure buf s false false []) as Hs. rewrite Hr in Hs.
@@ -203,17 +204,15 @@ Proof.
   cbn [ch_loop].
   assert (Hr' : rest s = c_size c ++ c_ext c ++ CRLF ++ (c_data c ++ t)).
   { rewrite Hr. unfold enc_line. now rewrite <- !app_assoc. }
-  destruct (scan_line_legal s buf _ _ _ _ Hv He Hr') as [(s1 & -> & Hlong)|(s1 & -> & Hr1 & Hp1)].
+  destruct (scan_line_legal s buf _ _ _ _ Hv He Hr') as [(s1 & -> & Hlong)|(s1 & -> & Hr1 & Hp1 & Hfit)].
   { left. exists s1. split; [reflexivity|]. unfold line_len. lia. }
   rewrite Hint.
   replace (Z.of_nat (length (c_data c)) =? 0)%Z with false by lia.
-  assert (Hbuf : 0 < buf).
-  { (* the scanner succeeded, so the buffer holds at least the line *)
-    pose proof (scan_line_pure buf s false false []) as Hs.
-    destruct buf; [|lia]. cbn [scan_pure] in Hs. destruct Hs as (sx & Hsx).
-    cbn [scan_line] in *. destruct (read s 1). discriminate. }
-  pose proof (ch_payload_gen (S (length (rest s1))) s1 buf None (Z.of_nat (length (c_data c))) acc sp
-                             Hbuf ltac:(lia) Hsp (over_none _)) as Hp.
+  assert (Hbuf : 0 < buf) by lia.
+  assert (Hfu : length (rest s1) < S (length (rest s1))) by lia.
+  set (fu := S (length (rest s1))) in *.
+  pose proof (ch_payload_gen fu s1 buf None (Z.of_nat (length (c_data c))) acc sp
+                             Hbuf Hfu Hsp (over_none _)) as Hp.
   rewrite over_none in Hp. rewrite Nat2Z.id, Hr1, app_length in Hp.
   replace (length (c_data c) <=? length (c_data c) + length t) with true in Hp by lia.
   destruct Hp as (s2 & -> & Hr2 & Hp2).
@@ -272,15 +271,14 @@ Proof.
   - (* the stream holds the size line and a strict prefix of the payload *)
     assert (Hr' : rest s = c_size c ++ c_ext c ++ CRLF ++ l).
     { rewrite H1. unfold enc_line. now rewrite <- !app_assoc. }
-    destruct (scan_line_legal s buf _ _ _ _ Hv He Hr') as [(s1 & -> & _)|(s1 & -> & Hr1 & _)].
+    destruct (scan_line_legal s buf _ _ _ _ Hv He Hr') as [(s1 & -> & _)|(s1 & -> & Hr1 & _ & Hfit)].
     { now exists s1. }
     rewrite Hint. replace (Z.of_nat (length (c_data c)) =? 0)%Z with false by lia.
-    assert (Hbuf : 0 < buf).
-    { pose proof (scan_line_pure buf s false false []) as Hs.
-      destruct buf; [|lia]. cbn [scan_pure] in Hs. destruct Hs as (sx & Hsx).
-      cbn [scan_line] in *. destruct (read s 1). discriminate. }
-    pose proof (ch_payload_gen (S (length (rest s1))) s1 buf None (Z.of_nat (length (c_data c))) acc sp
-                               Hbuf ltac:(lia) Hsp (over_none _)) as Hp.
+    assert (Hbuf : 0 < buf) by lia.
+    assert (Hfu : length (rest s1) < S (length (rest s1))) by lia.
+    set (fu := S (length (rest s1))) in *.
+    pose proof (ch_payload_gen fu s1 buf None (Z.of_nat (length (c_data c))) acc sp
+                               Hbuf Hfu Hsp (over_none _)) as Hp.
     rewrite over_none in Hp. rewrite Nat2Z.id, Hr1 in Hp.
     assert (Hshort : length l < length (c_data c)).
     { rewrite H2, app_length. destruct q; [congruence | simpl; lia]. }
@@ -300,7 +298,7 @@ Proof.
   cbn [ch_loop].
   assert (Hr' : rest s = c_size last ++ c_ext last ++ CRLF ++ tail).
   { rewrite Hr. unfold enc_line. now rewrite <- !app_assoc. }
-  destruct (scan_line_legal s buf _ _ _ _ Hv He Hr') as [(s1 & _ & Hlong)|(s1 & -> & Hr1 & Hp1)].
+  destruct (scan_line_legal s buf _ _ _ _ Hv He Hr') as [(s1 & _ & Hlong)|(s1 & -> & Hr1 & Hp1 & _)].
   { unfold line_len in Hfit. lia. }
   rewrite (py_int_hex_of_val _ _ Hv). cbn [Z.of_N Z.eqb].
   exists s1. split; [reflexivity|]. split; [exact Hr1|].
@@ -350,8 +348,8 @@ Proof.
       as [(s' & _ & Hbad)|(t' & s4 & Ht & -> & Hr4 & Hp4)].
     { specialize (Hbad Hcfit). unfold prefixb in Hbad. rewrite (prefixb_app CRLF) in Hbad. discriminate. }
     apply app_inv_head in Ht. subst t'.
-    destruct (IH f s4 buf (acc ++ c_data c) _ last tail Hcs Hfit Hl Hlfit Hr4) as (s' & -> & H2 & H3).
-    + rewrite Hr4, Hr'. rewrite !app_length. unfold CRLF. simpl. lia.
+    destruct (IH f s4 buf (acc ++ c_data c) (Nat.ltb buf (length (acc ++ c_data c))) last tail Hcs Hfit Hl Hlfit Hr4) as (s' & -> & H2 & H3).
+    + rewrite Hr4. rewrite Hr', !app_length in Hfuel. unfold CRLF in Hfuel. cbn [length] in Hfuel. lia.
     + reflexivity.
     + exists s'. rewrite length_payload_app. split; [reflexivity|]. split; [exact H2|].
       rewrite H3, Hp4, Hr4.
@@ -400,7 +398,7 @@ Proof.
       subst l. rewrite <- app_assoc in H2. apply app_inv_head in H2.
       eapply (IH f s4 buf _ _ last q Hcs Hl); eauto.
       * now rewrite Hr4.
-      * rewrite Hr4, Hr'. rewrite !app_length. lia.
+      * rewrite Hr4. rewrite Hr', !app_length in Hfuel. lia.
 Qed.
 
 (* chunk data that is not followed by CRLF is rejected *)
@@ -428,7 +426,7 @@ Proof.
     { now exists s'. }
     apply app_inv_head in Htt. subst t'.
     eapply (IH f s4 buf _ _ c t Hpre Hc Hr4 Ht); eauto.
-    rewrite Hr4, Hr'. rewrite !app_length. lia.
+    rewrite Hr4. rewrite Hr', !app_length in Hfuel. rewrite !app_length. lia.
 Qed.
 
 (* ---- property-level statements ---- *)
